@@ -70,6 +70,9 @@ type expEnv struct {
 	workspace source.Workspace
 	exec      *incremental.Executor
 	options   fdp.Options
+	// active counts the Run calls in flight (for the eviction guard of the
+	// scheduler: Executor.dirty is a mutex synctest cannot see through).
+	active int
 }
 
 func newExpEnv(disk *simOpener, roots []string, par int) *expEnv {
@@ -100,6 +103,8 @@ func (e *expEnv) compile(ctx context.Context) (out expOutcome) {
 			out.returned = true
 		}
 	}()
+	e.active++
+	defer func() { e.active-- }()
 	res, rep, err := incremental.Run(ctx, e.exec, queries.FDS{
 		Opener: e.opener, Session: e.session, Workspace: e.workspace, Options: e.options,
 	})
@@ -129,6 +134,18 @@ func (e *expEnv) compile(ctx context.Context) (out expOutcome) {
 		out.fds = string(b)
 	}
 	return out
+}
+
+// evictWith evicts the paths' File queries and performs edit atomically with
+// the eviction (Executor.EvictWithCleanup's cleanup), the documented way to
+// change inputs while other goroutines may be compiling.
+func (e *expEnv) evictWith(paths []string, edit func()) {
+	var keys []any
+	for _, p := range paths {
+		keys = append(keys, queries.File{Opener: e.opener, Path: p, ReportError: false}.Key())
+		keys = append(keys, queries.File{Opener: e.opener, Path: p, ReportError: true}.Key())
+	}
+	e.exec.EvictWithCleanup(keys, edit)
 }
 
 func (e *expEnv) evict(paths []string) {
